@@ -23,9 +23,9 @@ func HarnessC16Sched() {
 	deps := Files{base}
 	fdp1, fqns1, he1, tag1 := zzUserFile("f1.proto", "e1")
 	fdp2, fqns2, he2, tag2 := zzUserFile("f2.proto", "e2")
-	// quick: one message per file, delay bound 1. thorough: that space with delay bound 2,
-	// plus files with up to two messages at delay bound 1.
-	deep := zz.Tier() == 1 && zz.Choice(2) == 0
+	// quick: one message per file, delay bound 1. thorough: files with up to two messages,
+	// delay bound 1.
+	deep := false // (a deeper delay bound on this harness exceeded the time budget)
 	if zz.Tier() == 0 || deep {
 		zz.Assume(len(fdp1.MessageType) == 1 && len(fdp2.MessageType) == 1)
 	}
